@@ -91,17 +91,16 @@ def decodeHead (bs : List UInt8) : Option Char := bs.toByteArray.utf8DecodeChar?
 /-- left-to-right segmentation into well-formed sequences (`inl c`) and ill-formed bytes
 (`inr b`): what `bytes.decode("utf-8", handler)` hands to the handler, byte by byte -/
 def segment (bs : List UInt8) : List (Char ⊕ UInt8) :=
-  go bs (bs.length + 1)
+  go bs 0
 where
-  go (bs : List UInt8) : Nat → List (Char ⊕ UInt8)
-    | 0 => []
-    | fuel + 1 =>
-      match bs with
-      | [] => []
-      | b :: rest =>
-        match decodeHead (b :: rest) with
-        | some c => .inl c :: go ((b :: rest).drop c.utf8Size) fuel
-        | none => .inr b :: go rest fuel
+  /-- `skip`: number of bytes still belonging to the character just emitted -/
+  go : List UInt8 → Nat → List (Char ⊕ UInt8)
+    | [], _ => []
+    | _ :: rest, skip + 1 => go rest skip
+    | b :: rest, 0 =>
+      match decodeHead (b :: rest) with
+      | some c => .inl c :: go rest (c.utf8Size - 1)
+      | none => .inr b :: go rest 0
 
 /-! ## safely_unquote_* -/
 
